@@ -30,6 +30,17 @@ Theorem C19_filter_exact : forall re_match p ff x,
 Proof. exact filter_sublist. Qed.
 Print Assumptions C19_filter_exact.
 
+(* ... in table order, each as often as it occurs: a feature at any position
+   of the table contributes itself, unaltered, at the corresponding position
+   of the result iff it is accepted, and nothing else is contributed *)
+Theorem C19_filter_pointwise : forall re_match p a x b,
+  feature_filter re_match p (a ++ x :: b) =
+  feature_filter re_match p a ++ (if feval re_match p x then [x] else []) ++ feature_filter re_match p b.
+Proof. exact filter_pointwise. Qed.
+Print Assumptions C19_filter_pointwise.
+Theorem C19_filter_nil : forall re_match p, feature_filter re_match p [] = [].
+Proof. reflexivity. Qed.
+
 (* the location order is a strict weak order (hence a strict partial order):
    it is the strict order of a key into a total order *)
 Theorem C19_less_is_key : forall a b, loc_less a b = klt (lkey a) (lkey b).
